@@ -144,13 +144,13 @@ func Open(property string) *Reporter {
 	return r
 }
 
-func (r *Reporter) Seed() uint64     { return r.seed }
-func (r *Reporter) Tier() string     { return r.tier }
-func (r *Reporter) Quick() bool      { return r.tier != "thorough" }
-func (r *Reporter) Thorough() bool   { return r.tier == "thorough" }
+func (r *Reporter) Seed() uint64      { return r.seed }
+func (r *Reporter) Tier() string      { return r.tier }
+func (r *Reporter) Quick() bool       { return r.tier != "thorough" }
+func (r *Reporter) Thorough() bool    { return r.tier == "thorough" }
 func (r *Reporter) Shard() (int, int) { return r.shard, r.nshard }
-func (r *Reporter) OutDir() string   { return r.out }
-func (r *Reporter) Replaying() bool  { return r.replay != nil }
+func (r *Reporter) OutDir() string    { return r.out }
+func (r *Reporter) Replaying() bool   { return r.replay != nil }
 
 // ReplayWitness returns the witness stored in the replay file (nil if none).
 func (r *Reporter) ReplayWitness() json.RawMessage {
